@@ -227,4 +227,28 @@ theorem parser_depth_is_runtime_depth (b : UInt8) (d : Int) : depthStep b d = d 
     have h2 : b ≠ 0x64 := by intro e; subst e; exact h64 rfl
     simp [rtDelta, h63, h64, h68, depthStep, hne, Script.isCondOpen, h1, h2]
 
+/-- **Each script has its own alt stack.**  However a script ends — by running to its end or by a top-level OP_RETURN
+    after Genesis — the state handed to the next script has an empty alt stack (the node's `EvalScript` keeps the alt
+    stack in a local variable).  The code used to skip this on the early-return path (finding F-C05-04):
+    `1 TOALTSTACK 1 RETURN | FROMALTSTACK` was accepted. -/
+theorem alt_stack_does_not_persist (env : Env) (sidx : Nat) (ops : List POp) (s : St) (tr : List Snap) (s' : St)
+    (tr' : List Snap)
+    (h : runScript env sidx ops s tr = (.normal s', tr') ∨ runScript env sidx ops s tr = (.byReturn s', tr')) :
+    s'.as = [] := by
+  unfold runScript at h
+  rcases h with h | h <;>
+  · split at h
+    · simp at h
+    · simp at h
+    · first
+      | (simp only [Prod.mk.injEq, Ended.byReturn.injEq, Ended.normal.injEq, reduceCtorEq, false_and] at h
+         try (obtain ⟨h1, _⟩ := h; rw [← h1]))
+      | skip
+    · split at h
+      · simp at h
+      · first
+        | (simp only [Prod.mk.injEq, Ended.normal.injEq, reduceCtorEq, false_and] at h
+           try (obtain ⟨h1, _⟩ := h; rw [← h1]))
+        | skip
+
 end GoBT.C05
